@@ -161,6 +161,12 @@ func (x *xexec) apply(op xop) *xresult {
 		if op.K == "W" && op.Size > 0 && op.Size <= regionx.MaxPayload && res.out.Err == nil && !res.out.Panicked {
 			delete(x.unspec, slot) // a completed write supersedes the interrupted one
 		}
+		if op.K == "W" && op.Size > regionx.MaxPayload && res.out.Err == nil && !res.out.Panicked {
+			// this statement has no opinion on the size limit (C14 has): a write the region ACCEPTED is the
+			// chunk's last written data from here on, and later crashes must leave it alone
+			x.e.Model[slot] = res.out.Written
+			delete(x.unspec, slot)
+		}
 		if op.K == "W" && op.Size == 0 {
 			// the statement does not say what a zero-length write stores: the chunk itself is unspecified
 			// from here on (until a non-empty write of it completes); all OTHER chunks stay specified
@@ -601,7 +607,12 @@ func judgeXTransition(cfg *xconfig, slot int, hist []xop, res *xresult, each fun
 		atomic.AddInt64(&xPostWrites, 1)
 	}
 	if fs, _, _ := judgeMem(res.pre, res.preModel, exempt, cfg.coords, "pre-state"); len(fs) > 0 {
-		atomic.AddInt64(&xPreBad, 1) // the damage was done by a completed earlier operation: reported at that operation
+		// stopping before the first physical write of this WriteSector is a crash point too: a chunk that
+		// is not the one being written and does not read back its last accepted bytes at that point breaks
+		// the statement, whichever completed earlier operation did the damage. The later crash points of
+		// this write are not judged (they would repeat the same finding).
+		atomic.AddInt64(&xPreBad, 1)
+		recordX(cfg.name, hist, regionx.CrashPoint{}, res.ops, "", fs)
 		return
 	}
 	atomic.AddInt64(&xWrites, 1)
@@ -822,7 +833,7 @@ func xplan(thorough bool) []xconfig {
 			{name: "os-device/fragmentation-3coords-2sizes", coords: c3, sizes: []int{1, 4093}, reopen: true, depth: 5, share: 6 * time.Second},
 			{name: "os-device/crash-then-continue-3coords-2sizes", coords: c3, sizes: []int{1, 4093}, depth: 2, crash: true, post: 2, share: 8 * time.Second},
 			{name: "os-device/with-empty-writes-2coords-3sizes", coords: c2, sizes: []int{0, 1, 4093}, reopen: true, depth: 0, share: 4 * time.Second},
-			{name: "os-device/refused-oversize-write-then-continue-2coords", coords: c2, sizes: []int{1, 4093, regionx.MaxPayload + 1}, depth: 4, share: 6 * time.Second},
+			{name: "os-device/refused-oversize-write-then-continue-2coords", coords: c2, sizes: []int{1, 4093, regionx.MaxPayload + 1}, reopen: true, depth: 4, share: 8 * time.Second},
 			{name: "os-device/sector-numbers-around-256-2coords-2sizes", prefix: high, coords: c2, sizes: []int{1, 4093}, reopen: true, depth: 5, share: 4 * time.Second},
 			{name: "os-device/region.Open-on-real-files-2coords-3sizes", coords: c2, sizes: []int{1, 4093, 8189}, pad: true, reopen: true, depth: 4, openLen: -1, share: 8 * time.Second},
 		}
@@ -887,7 +898,7 @@ func runX(deadline time.Time) {
 	rep.Count("os_device:crash_images_reopened_with_region.Open(real file)", xFileImages)
 	rep.Count("os_device:real_files_changed_by_region.Open_or_reads(info)", xFileChanged)
 	rep.Count("os_device:crash_images_not_continued(torn location word: entry inside the header or overlapping another run: unspecified)", xUnsound)
-	rep.Count("os_device:write_transitions_skipped_pre_state_already_inconsistent", xPreBad)
+	rep.Count("os_device:write_transitions_whose_pre_state_already_failed_the_oracle(reported as crash point 0)", xPreBad)
 	rep.Count("os_device:images_whose_reopen_or_reads_mutated_the_device(info)", xWroteOnRe)
 	rep.Count("os_device:truncations_issued_by_WriteSector", xTruncOps)
 	rep.Count("os_device:optional_interface_calls:ReadAt", atomic.LoadInt64(&osCalls.readAt))
